@@ -39,3 +39,10 @@ Definition vertex_struct_ok (m : module) (h : nat) : bool :=
 
 Definition wf_vertex_inputs (m : module) : bool :=
   forallb (fun e => forallb (vertex_struct_ok m) (struct_param_handles m (e_fn e))) (vertex_entries m).
+
+(** the class of the known finding KF-C07-struct-not-emitted / KF-C01-vertex-struct-not-emitted, stated on the SHADER
+    (its cause) rather than on the output (its symptom): a struct parameter of a vertex entry point that the emit rule of
+    C08 excludes - i.e. one that is also an entry point result and not reachable from a module-scope variable. A struct
+    missing from the output for any other reason is a violation, not this finding. *)
+Definition kf_vertex_struct_is_result (m : module) : bool :=
+  existsb (fun e => existsb (fun h => negb (emit_b m h)) (struct_param_handles m (e_fn e))) (vertex_entries m).
